@@ -74,7 +74,7 @@ func c08RealConfig(rules []c08rule) *config.RulesBasedSamplerConfig {
 		case "deterministic":
 			rr.Sampler = &config.RulesBasedDownstreamSampler{DeterministicSampler: &config.DeterministicSamplerConfig{SampleRate: r.DownRate}}
 		case "dynamic":
-			rr.Sampler = &config.RulesBasedDownstreamSampler{DynamicSampler: &config.DynamicSamplerConfig{SampleRate: int64(r.DownRate), FieldList: []string{"f0", "f1"}}}
+			rr.Sampler = &config.RulesBasedDownstreamSampler{DynamicSampler: &config.DynamicSamplerConfig{SampleRate: int64(r.DownRate), FieldList: r.downFields()}}
 		}
 		cfg.Rules = append(cfg.Rules, rr)
 	}
@@ -106,8 +106,8 @@ func (r *c08real) decide(rules []c08rule, tr c08trace, id string) (rate uint, ke
 
 // standaloneDynamicKey is what a DynamicSampler with the downstream's configuration
 // answers for the trace when asked directly.
-func c08StandaloneDynamicKey(rate int, tr c08trace, id string) string {
-	d := &DynamicSampler{Config: &config.DynamicSamplerConfig{SampleRate: int64(rate), FieldList: []string{"f0", "f1"}}, Logger: &logger.NullLogger{}, Metrics: &metrics.NullMetrics{}}
+func c08StandaloneDynamicKey(rate int, fields []string, tr c08trace, id string) string {
+	d := &DynamicSampler{Config: &config.DynamicSamplerConfig{SampleRate: int64(rate), FieldList: fields}, Logger: &logger.NullLogger{}, Metrics: &metrics.NullMetrics{}}
 	if err := d.Start(); err != nil {
 		panic(err)
 	}
@@ -141,6 +141,14 @@ type c08rule struct {
 	SampleRate int
 	Down       string // "", "deterministic", "dynamic"
 	DownRate   int
+	DownFields []string // dynamic downstream FieldList; nil = {"f0","f1"}
+}
+
+func (r c08rule) downFields() []string {
+	if r.DownFields == nil {
+		return []string{"f0", "f1"}
+	}
+	return r.DownFields
 }
 
 func c08show(v any) string {
@@ -185,6 +193,9 @@ func (r c08rule) witness() map[string]any {
 	switch {
 	case r.Down != "":
 		w["action"] = fmt.Sprintf("downstream %s rate %d (Drop=%v SampleRate=%d)", r.Down, r.DownRate, r.Drop, r.SampleRate)
+		if r.Down == "dynamic" {
+			w["action"] = fmt.Sprintf("downstream dynamic rate %d FieldList %v (Drop=%v SampleRate=%d)", r.DownRate, r.downFields(), r.Drop, r.SampleRate)
+		}
 	case r.Drop:
 		w["action"] = fmt.Sprintf("Drop (SampleRate=%d)", r.SampleRate)
 	default:
@@ -1245,7 +1256,7 @@ func TestVerif_C08(t *testing.T) {
 					run.Violation("C08/downstream-deterministic/keep", fmt.Sprintf("keep=%v differs from the deterministic sampler's decision for this trace id", keep), wit())
 				}
 			case r.Down == "dynamic":
-				if want := c08StandaloneDynamicKey(r.DownRate, tr, id); key != want {
+				if want := c08StandaloneDynamicKey(r.DownRate, r.downFields(), tr, id); key != want {
 					run.Violation("C08/downstream-dynamic/not-delegated", fmt.Sprintf("key %q is not the downstream dynamic sampler's key %q", key, want), wit())
 				}
 				if rate < 1 || (rate == 1 && !keep) {
@@ -1316,6 +1327,118 @@ func TestVerif_C08(t *testing.T) {
 		}
 	})
 
+	// ---- rules that only differ in conditions and downstream sampler ---------------
+	// Name is optional, so several rules may share Name (or have none), Scope, Drop,
+	// SampleRate and number of conditions and still delegate to DIFFERENT downstream
+	// samplers. The rule name in the reason cannot tell them apart; the applied rule is
+	// identified by behaviour: every rule of the list has its own deterministic rate or its
+	// own dynamic field list, and the returned (rate, keep, key) must be what the downstream
+	// sampler OF A RULE THE MODEL ALLOWS answers for this trace.
+	run.Cases("twin-downstream", run.N(4000, 300000), func(i int, rng *verifkit.Rand) {
+		tr := c08genTrace(rng)
+		for len(tr.Spans) == 0 {
+			tr = c08genTrace(rng)
+		}
+		id := rng.Hex(32)
+		n := rng.Range(2, 4)
+		name := verifkit.Pick(rng, "", "", "dup", "check status")
+		scope := verifkit.Pick(rng, "", "trace", "span")
+		nconds := verifkit.Pick(rng, 1, 1, 1, 2)
+		drop := rng.Chance(0.2)
+		sampleRate := verifkit.Pick(rng, 0, 0, 1, 10)
+		detRates := rng.Perm(6) // distinct rates 2,3,5,7,11,50
+		dynLists := rng.Perm(6)
+		rules := make([]c08rule, n)
+		for j := range rules {
+			r := c08rule{Name: name, Scope: scope, Drop: drop, SampleRate: sampleRate}
+			if rng.Chance(0.15) { // now and then a rule of the list is not a twin
+				r.Name = fmt.Sprintf("other%d", j)
+			}
+			for k := 0; k < nconds; k++ {
+				if rng.Chance(0.7) {
+					r.Conds = append(r.Conds, c08genSimpleCond(rng, tr))
+				} else {
+					r.Conds = append(r.Conds, c08genCond(rng, tr, scope))
+				}
+			}
+			if rng.Chance(0.6) {
+				r.Down, r.DownRate = "deterministic", []int{2, 3, 5, 7, 11, 50}[detRates[j]]
+			} else {
+				r.Down, r.DownRate = "dynamic", verifkit.Pick(rng, 2, 4, 9)
+				r.DownFields = [][]string{{"f0"}, {"f1"}, {"f2"}, {"f0", "f1"}, {"f1", "f2"}, {"f3", "other"}}[dynLists[j]]
+			}
+			rules[j] = r
+		}
+		verdicts := make([]c08tri, n)
+		for j, r := range rules {
+			verdicts[j] = c08evalRule(tr, r)
+		}
+		allowed := c08allowed(verdicts)
+		rate, keep, reason, key := real.decide(rules, tr, id)
+		run.Count("decisions", 1)
+		run.Count("twin_cases", 1)
+
+		fits := func(j int) bool {
+			if j == n {
+				return rate == 1 && keep && key == ""
+			}
+			r := rules[j]
+			if r.Down == "deterministic" {
+				return rate == uint(r.DownRate) && keep == c08detKeep(id, r.DownRate) && key == ""
+			}
+			return rate >= 1 && (rate > 1 || keep) && key == c08StandaloneDynamicKey(r.DownRate, r.downFields(), tr, id)
+		}
+		ok := false
+		for j := 0; j <= n; j++ {
+			if allowed[j] && fits(j) {
+				ok = true
+			}
+		}
+		if !ok {
+			rw := make([]any, n)
+			for j, r := range rules {
+				w := r.witness()
+				w["model"] = verdicts[j].String()
+				rw[j] = w
+			}
+			w := map[string]any{"rules": rw, "trace": tr.witness(), "trace_id": id, "returned": map[string]any{"rate": rate, "keep": keep, "reason": reason, "key": key}}
+			other := -1
+			for j := 0; j < n; j++ {
+				if !allowed[j] && fits(j) {
+					other = j
+				}
+			}
+			if other >= 0 && len(allowed) == 1 && c08decider(verdicts) < n {
+				d := c08decider(verdicts)
+				w["matched_rule_index"], w["delegated_to_rule_index"] = d, other
+				run.Violation("C08/downstream/delegated-to-another-rules-sampler",
+					fmt.Sprintf("rule #%d (%s) is the first matching rule but rate=%d keep=%v key=%q are the answer of rule #%d's downstream sampler (%s)", d, rules[d].witness()["action"], rate, keep, key, other, rules[other].witness()["action"]), w)
+			} else {
+				run.Violation("C08/downstream/result-fits-no-allowed-rule",
+					fmt.Sprintf("rate=%d keep=%v key=%q reason=%q is not what the downstream sampler of any rule the documented semantics allow (%v) answers", rate, keep, key, reason, c08allowedIdx(allowed)), w)
+			}
+		}
+		if len(allowed) == 1 {
+			d := c08decider(verdicts)
+			if d < n {
+				// is there a LATER rule with the same name/scope/shape (a twin that could shadow it)?
+				later := false
+				for j := d + 1; j < n; j++ {
+					if rules[j].Name == rules[d].Name {
+						later = true
+					}
+				}
+				if later {
+					run.Count("twin_cases_earlier_twin_decides", 1)
+					run.Nontrivial(fmt.Sprintf("twin|%s|%s|%d|%d|%s>%s", name, scope, nconds, d, rules[d].Down, rules[d+1].Down))
+				}
+			}
+		}
+		if i < 1 {
+			run.Sample(map[string]any{"kind": "twin-downstream", "rules": []any{rules[0].witness(), rules[1].witness()}, "trace": tr.witness()})
+		}
+	})
+
 	// ---- keep frequency of SampleRate N rules (thorough) ------------------------
 	if run.Thorough() {
 		const calls = 100000
@@ -1363,6 +1486,35 @@ func c08decider(verdicts []c08tri) int {
 		}
 	}
 	return len(verdicts)
+}
+
+func c08allowedIdx(allowed map[int]bool) []int {
+	var out []int
+	for k := range allowed {
+		out = append(out, k)
+	}
+	sort.Ints(out)
+	return out
+}
+
+// c08genSimpleCond: a condition whose documented meaning is never in doubt.
+func c08genSimpleCond(rng *verifkit.Rand, tr c08trace) c08cond {
+	f := c08fields[rng.Intn(len(c08fields))]
+	c := c08cond{Fields: []string{f}}
+	switch rng.Intn(5) {
+	case 0:
+		c.Op = "exists"
+	case 1:
+		c.Op = "not-exists"
+	default:
+		c.Op = "="
+		if v, ok := c08valueFromTrace(rng, tr, c.Fields); ok && rng.Chance(0.8) {
+			c.Value = v
+		} else {
+			c.Value = verifkit.Pick[any](rng, "abc", "GET", 200, 5)
+		}
+	}
+	return c
 }
 
 func c08allowedNames(rules []c08rule, allowed map[int]bool) []string {
